@@ -779,6 +779,211 @@ def translate_bulk(repo):
     return val
 
 
+def translate_assembly2d(methods, fname, repo):
+    """2-D branch of __Spectral_Decomposition: projP from eigenvalues and Kelvin-Mandel eigenprojector
+    vectors; plus the Kelvin-Mandel packing Project_matrix_to_vector (2-D part)."""
+    fn = methods.get("__Spectral_Decomposition")
+    if fn is None:
+        raise TranslateError("%s: __Spectral_Decomposition not found" % fname)
+    out = {}
+    body = fn.body
+    a = find_assign(body, "(val_e_pg, list_m, list_M)", fname)
+    if not _norm(ast.unparse(a.value)).startswith(_norm("self._Eigen_values_vectors_projectors(vector_e_pg")):
+        raise TranslateError("%s:%d: eigen data do not come from _Eigen_values_vectors_projectors(vector_e_pg, ...)" % (fname, a.lineno))
+    sc = Scalar({"val_e_pg": ('s', 'l')}, fname)
+    out["valp"] = sc.ev(find_assign(body, "valp", fname).value)
+    a = find_assign(body, "dvalp", fname)
+    if _norm(ast.unparse(a.value)) != _norm("np.heaviside(val_e_pg, 0.5)"):
+        raise TranslateError("%s:%d: dvalp is not np.heaviside(val_e_pg, 0.5)" % (fname, a.lineno))
+    blk = find_if(body, "dim == 2", fname)
+    b2 = blk.body
+    expect = {
+        "(m1, m2)": "(list_m[0], list_m[1])",
+        "v1_m_v2[v1_m_v2 == 0]": "1",
+        "m1xm1": "TensorProd(m1, m1, ndim=1)",
+        "m2xm2": "TensorProd(m2, m2, ndim=1)",
+    }
+    for tgt, want in expect.items():
+        a = find_assign(b2, tgt, fname)
+        if _norm(ast.unparse(a.value)) != _norm(want):
+            raise TranslateError("%s:%d: %s is not %s" % (fname, a.lineno, tgt, want))
+    sc = Scalar({"val_e_pg[..., 0]": ('s', 'l0'), "val_e_pg[..., 1]": ('s', 'l1')}, fname)
+    out["dv"] = sc.ev(find_assign(b2, "v1_m_v2", fname).value)
+    sc = Scalar({"valp[..., 0]": ('s', 'vp0'), "valp[..., 1]": ('s', 'vp1'), "v1_m_v2": ('s', 'dv')}, fname)
+    out["BetaP"] = sc.ev(find_assign(b2, "BetaP", fname).value)
+    sc = Scalar({"dvalp": ('s', 'dk'), "BetaP": ('s', 'beta')}, fname)
+    out["gammap"] = sc.ev(find_assign(b2, "gammap", fname).value)
+    # entry (a,b) of projP: np.eye(3) -> i ; m1xm1 -> x1*y1 ; m2xm2 -> x2*y2
+    sc = Scalar({"BetaP": ('s', 'beta'), "np.eye(3)": ('s', 'i'), "gammap[..., 0]": ('s', 'g0'), "gammap[..., 1]": ('s', 'g1'),
+                 "m1xm1": ('*', ('s', 'x1'), ('s', 'y1')), "m2xm2": ('*', ('s', 'x2'), ('s', 'y2'))}, fname)
+    out["projP"] = sc.ev(find_assign(b2, "projP", fname).value)
+    sc = Scalar({"np.eye(3)": ('s', 'i'), "projP": ('s', 'p')}, fname)
+    out["projM"] = sc.ev(find_assign(b2, "projM", fname).value)
+    okt = set(expect) | {"v1_m_v2", "BetaP", "gammap", "projP", "projM"}
+    for st in b2:
+        if isinstance(st, ast.Assign):
+            if ast.unparse(st.targets[0]) not in okt:
+                raise TranslateError("%s:%d: unexpected assignment in the 2-D projector assembly" % (fname, st.lineno))
+        elif not (isinstance(st, ast.Expr) and isinstance(st.value, ast.Call) and ast.unparse(st.value.func) == "tic.Tac"):
+            raise TranslateError("%s:%d: unexpected statement in the 2-D projector assembly" % (fname, st.lineno))
+    ret = fn.body[-1]
+    if not (isinstance(ret, ast.Return) and _norm(ast.unparse(ret.value)) == "(projP,projM)"):
+        raise TranslateError("%s: __Spectral_Decomposition does not return (projP, projM)" % fname)
+    # the eigen routine hands over m_i = Project_matrix_to_vector(M_i) and [m1, m2]
+    fe = methods["_Eigen_values_vectors_projectors"]
+    blk = find_if(fe.body, "dim == 2", fname)
+    for tgt, want in (("m1", "Project_matrix_to_vector(M1)"), ("m2", "Project_matrix_to_vector(M2)"), ("list_m", "[m1, m2]"), ("list_M", "[M1, M2]")):
+        a = find_assign(blk.body, tgt, fname)
+        if _norm(ast.unparse(a.value)) != _norm(want):
+            raise TranslateError("%s:%d: %s is not %s" % (fname, a.lineno, tgt, want))
+    # Kelvin-Mandel packing, 2-D part
+    upath = os.path.join(repo, "EasyFEA", "Models", "_utils.py")
+    uname = "Models/_utils.py"
+    tree = ast.parse(open(upath).read())
+    pf = [f for f in tree.body if isinstance(f, ast.FunctionDef) and f.name == "Project_matrix_to_vector"]
+    if not pf:
+        raise TranslateError("%s: Project_matrix_to_vector not found" % uname)
+    pf = pf[0]
+    args = pf.args.args
+    defaults = pf.args.defaults
+    if [x.arg for x in args] != ["matrix", "coef"] or len(defaults) != 1 or _norm(ast.unparse(defaults[0])) != _norm("np.sqrt(2)"):
+        raise TranslateError("%s:%d: Project_matrix_to_vector(matrix, coef=np.sqrt(2)) signature changed" % (uname, pf.lineno))
+    sc = Scalar({"matrix[..., 0, 0]": ('s', 'm11'), "matrix[..., 1, 1]": ('s', 'm22'), "matrix[..., 0, 1]": ('s', 'm12'),
+                 "matrix[..., 1, 0]": ('s', 'm12'), "coef": ('s', 'r2')}, uname)
+    km = []
+    for k in range(3):
+        a = find_assign(pf.body, "vector[..., %d]" % k, uname)      # first occurrence = the 2-D branch
+        km.append(sc.ev(a.value))
+    out["km"] = km
+    return out
+
+
+class DegExpr:
+    """expressions of the degenerate 3-D branches -> (type, coq text); masks / newaxis subscripts are dropped."""
+
+    def __init__(self, fname, case, env):
+        self.fname, self.case, self.env = fname, case, dict(env)
+
+    def strip(self, n):
+        while isinstance(n, ast.Subscript):
+            sl = _norm(ast.unparse(n.slice))
+            if sl in (self.case, _norm("(:, np.newaxis, np.newaxis)"), _norm(":, np.newaxis, np.newaxis")):
+                n = n.value
+            else:
+                break
+        return n
+
+    def ev(self, n):
+        n = self.strip(n)
+        t = _norm(ast.unparse(n))
+        if t in self.env:
+            return self.env[t]
+        if isinstance(n, ast.Constant) and isinstance(n.value, (int, float)) and not isinstance(n.value, bool):
+            return ('S', sc_coq(('c', Fraction(repr(n.value)) if isinstance(n.value, float) else Fraction(n.value))))
+        if isinstance(n, ast.UnaryOp) and isinstance(n.op, ast.USub):
+            k, x = self.ev(n.operand)
+            return (k, "(- %s)" % x)
+        if isinstance(n, ast.BinOp):
+            (ka, a), (kb, b) = self.ev(n.left), self.ev(n.right)
+            op = type(n.op)
+            if ka == kb == 'S' and op in (ast.Add, ast.Sub, ast.Mult, ast.Div):
+                return ('S', "(%s %s %s)" % (a, {ast.Add: '+', ast.Sub: '-', ast.Mult: '*', ast.Div: '/'}[op], b))
+            if ka == kb == 'M' and op in (ast.Add, ast.Sub):
+                return ('M', "(%s %s %s)" % (a, '+' if op is ast.Add else '-', b))
+            if ka == 'S' and kb == 'M' and op is ast.Mult:
+                return ('M', "(sc %s * %s)" % (a, b))
+            if ka == 'M' and kb == 'S' and op is ast.Mult:
+                return ('M', "(sc %s * %s)" % (b, a))
+            if ka == 'M' and kb == 'S' and op is ast.Div:
+                return ('M', "(sc (/ %s) * %s)" % (b, a))
+        raise TranslateError("%s:%d: unsupported expression in the degenerate 3-D branch [%s]" % (self.fname, getattr(n, "lineno", 0), ast.unparse(n)[:100]))
+
+
+def translate_eig3d_degenerate(methods, fname):
+    fn = methods["_Eigen_values_vectors_projectors"]
+    blk = find_if(fn.body, "self.dim == 2", fname)
+    body = blk.orelse[0].body
+    out = {}
+    for nm, want in (("mat_e_pg", "np.asarray(matrix_e_pg)"), ("I1", "np.asarray(I1_e_pg)"), ("sqrt_g", "np.asarray(sqrt_g_e_pg)"),
+                     ("eye3", "np.eye(3)"), ("sqrt_g_e_pg", "np.sqrt(g_e_pg)"), ("I1_e_pg", "Trace(matrix_e_pg)")):
+        a = find_assign(body, nm, fname)
+        if _norm(ast.unparse(a.value)) != _norm(want):
+            raise TranslateError("%s:%d: %s is not %s" % (fname, a.lineno, nm, want))
+    # case 4 defaults
+    base = {"I1": ('S', 'I1')}
+    for k in (1, 2, 3):
+        out["c4_val%d" % k] = DegExpr(fname, "", base).ev(find_assign(body, "val%d_e_pg" % k, fname).value)[1]
+    for M in ("M1", "M3"):
+        a = find_assign(body, M, fname)
+        if _norm(ast.unparse(a.value)) != _norm("np.zeros(mat_e_pg.shape)"):
+            raise TranslateError("%s:%d: default %s is not np.zeros(mat_e_pg.shape)" % (fname, a.lineno, M))
+        idx = None
+        for st in body:
+            if isinstance(st, ast.Assign):
+                t = _norm(ast.unparse(st.targets[0]))
+                for i in range(3):
+                    if t == _norm("%s[..., %d, %d]" % (M, i, i)):
+                        if idx is not None or _norm(ast.unparse(st.value)) != "1":
+                            raise TranslateError("%s:%d: default %s initialisation changed" % (fname, st.lineno, M))
+                        idx = i
+        if idx is None:
+            raise TranslateError("%s: default diagonal entry of %s not found" % (fname, M))
+        out["c4_%s" % M] = idx
+    # cases 2 and 3
+    for c, first, second in ((2, "M1", "M3"), (3, "M3", "M1")):
+        case = "case%d" % c
+        blk_c = None
+        for st in body:
+            if isinstance(st, ast.If) and _norm(ast.unparse(st.test)) == _norm("%s.any()" % case):
+                blk_c = st
+        if blk_c is None:
+            raise TranslateError("%s: block `if %s.any()` not found" % (fname, case))
+        a = find_assign(blk_c.body, "sqrt_g_c%d" % c, fname)
+        if _norm(ast.unparse(a.value)) != _norm("sqrt_g[%s]" % case):
+            raise TranslateError("%s:%d: sqrt_g_c%d is not sqrt_g[%s]" % (fname, a.lineno, c, case))
+        env = {"I1": ('S', 'I1'), "sqrt_g_c%d" % c: ('S', 'sg'), "mat_e_pg": ('M', 'X'), "eye3": ('M', '1')}
+        de = DegExpr(fname, case, env)
+        seen = set()
+        for st in blk_c.body:
+            if isinstance(st, ast.Expr) and isinstance(st.value, ast.Call) and ast.unparse(st.value.func) == "tic.Tac":
+                continue
+            if isinstance(st, ast.AugAssign) and isinstance(st.op, ast.Add):
+                t = _norm(ast.unparse(st.target))
+                for k in (1, 2, 3):
+                    if t == _norm("val%d_e_pg[%s]" % (k, case)):
+                        kk, x = de.ev(st.value)
+                        if kk != 'S':
+                            raise TranslateError("%s:%d: eigenvalue increment is not a scalar" % (fname, st.lineno))
+                        out["c%d_val%d" % (c, k)] = "(%s + %s)" % (out["c4_val%d" % k], x)
+                        seen.add(t)
+                        break
+                else:
+                    raise TranslateError("%s:%d: unexpected += in case %d" % (fname, st.lineno, c))
+                continue
+            if isinstance(st, ast.Assign):
+                t = _norm(ast.unparse(st.targets[0]))
+                if t == _norm("sqrt_g_c%d" % c):
+                    continue
+                if t == _norm("I_rg_c%d" % c):
+                    de.env[t] = de.ev(st.value)
+                    continue
+                if t == _norm("%s[%s]" % (first, case)):
+                    out["c%d_%s" % (c, first)] = de.ev(st.value)[1]
+                    de.env[_norm(first)] = ('M', 'P')      # the matrix just assigned
+                    continue
+                if t == _norm("%s[%s]" % (second, case)):
+                    if "c%d_%s" % (c, first) not in out:
+                        raise TranslateError("%s:%d: %s assigned before %s in case %d" % (fname, st.lineno, second, first, c))
+                    out["c%d_%s" % (c, second)] = de.ev(st.value)[1]
+                    continue
+            raise TranslateError("%s:%d: unexpected statement in case %d [%s]" % (fname, st.lineno, c, ast.unparse(st)[:80]))
+        for k in ("c%d_val1" % c, "c%d_val2" % c, "c%d_val3" % c, "c%d_%s" % (c, first), "c%d_%s" % (c, second)):
+            if k not in out:
+                raise TranslateError("%s: case %d does not define %s" % (fname, c, k))
+    # after the cases: Frobenius normalisation of M1, M3 (not modelled) and M2 = I - (M1 + M3)
+    return out
+
+
 def translate_sources(methods, fname):
     out = {}
     for meth, var in (("Get_r_e_pg", "r"), ("Get_f_e_pg", "f")):
@@ -911,6 +1116,8 @@ def translate(repo):
            "rp_rm": translate_rp_rm(methods, fname),
            "eig2d": translate_eig2d(methods, fname),
            "eig3d": translate_eig3d(methods, fname),
+           "asm2d": translate_assembly2d(methods, fname, repo),
+           "deg3d": translate_eig3d_degenerate(methods, fname),
            "sources": translate_sources(methods, fname),
            "history": translate_history(os.path.join(repo, "EasyFEA", "Simulations", "_phasefield.py"))}
     return res
@@ -967,6 +1174,21 @@ def emit_coq(res):
     w("Definition e2_m1tot (x i l0 l1 dv : R) : R := %s." % sc_coq(e["m1tot"]))
     w("Definition e2_M2 (i m1 : R) : R := %s." % sc_coq(e["M2"]))
     w("")
+    a2 = res["asm2d"]
+    w("(* 2-D assembly of projP in __Spectral_Decomposition; l = an eigenvalue; hvs = np.heaviside(., h) *)")
+    w("Definition hvs (x h : R) : R := if Rlt_dec x 0 then 0 else if Rlt_dec 0 x then 1 else h.")
+    w("Definition p2_valp (l : R) : R := %s." % sc_coq(a2["valp"]))
+    w("Definition p2_dvalp (l : R) : R := hvs l (1 / 2).")
+    w("Definition p2_dv (l0 l1 : R) : R := if Req_EM_T %s 0 then 1 else %s." % (sc_coq(a2["dv"]), sc_coq(a2["dv"])))
+    w("Definition p2_BetaP (vp0 vp1 dv : R) : R := %s." % sc_coq(a2["BetaP"]))
+    w("Definition p2_gammap (dk beta : R) : R := %s." % sc_coq(a2["gammap"]))
+    w("(* entry (a,b) of projP: i = entry of np.eye(3), x_k = m_k[a], y_k = m_k[b] *)")
+    w("Definition p2_projP (beta g0 g1 i x1 y1 x2 y2 : R) : R := %s." % sc_coq(a2["projP"]))
+    w("Definition p2_projM (i p : R) : R := %s." % sc_coq(a2["projM"]))
+    w("(* Kelvin-Mandel packing of a symmetric 2x2 matrix (Project_matrix_to_vector), r2 = coef = sqrt 2 *)")
+    for k in range(3):
+        w("Definition km2_%d (m11 m22 m12 r2 : R) : R := %s." % (k, sc_coq(a2["km"][k])))
+    w("")
     e = res["eig3d"]
     w("Section Sylvester3.")
     w("Variable A : MatAlg.")
@@ -974,7 +1196,20 @@ def emit_coq(res):
     w("Definition e3_M1 (X : A) (v1 v2 v3 : R) : A := %s." % e["M1"])
     w("Definition e3_M3 (X : A) (v1 v2 v3 : R) : A := %s." % e["M3"])
     w("Definition e3_M2 (M1 M3 : A) : A := %s." % e["M2"])
+    dg = res["deg3d"]
+    w("(* degenerate branches: case 2 (two largest equal), case 3 (two smallest equal); sg = sqrt g; P = the projector")
+    w("   assigned first in the branch *)")
+    w("Definition e3c2_M1 (X : A) (I1 sg : R) : A := %s." % dg["c2_M1"])
+    w("Definition e3c2_M3 (P : A) : A := %s." % dg["c2_M3"])
+    w("Definition e3c3_M3 (X : A) (I1 sg : R) : A := %s." % dg["c3_M3"])
+    w("Definition e3c3_M1 (P : A) : A := %s." % dg["c3_M1"])
     w("End Sylvester3.")
+    for c in (2, 3, 4):
+        for k in (1, 2, 3):
+            w("Definition e3c%d_val%d (I1 sg : R) : R := %s." % (c, k, dg["c%d_val%d" % (c, k)]))
+    w("(* case 4 (g = 0) default projectors: index of the unit diagonal entry of M1 and of M3 *)")
+    w("Definition e3c4_M1_index : nat := %d." % dg["c4_M1"])
+    w("Definition e3c4_M3_index : nat := %d." % dg["c4_M3"])
     w("Definition e3_g (I1 I2 : R) : R := %s." % sc_coq(e["g"]))
     w("(* case selection of the 3-D routine: g_neq_0 as a function of g and n = Trace(A @ A); numerator of the")
     w("   Lode argument arg = e3_argnum / g**(3/2); theta and the case masks depend on nothing else *)")
